@@ -65,10 +65,23 @@ def use_mesh(m):
     return m
 
 
+def _shading(cells, key):
+    """the shading as a frozenset whose cells were INSERTED in an order chosen from `key` (sorted, reversed, rotated):
+    equal sets whatever the order, but CPython iterates a set in an order that depends on the insertion order of
+    colliding entries - code that reads a shading in iteration order where it should not shows up"""
+    cs = sorted({tuple(c) for c in cells})
+    if len(cs) > 1:
+        k = _pick(("shading-order", tuple(cs), key), 2 * len(cs))
+        cs = cs[k // 2:] + cs[:k // 2]
+        if k % 2:
+            cs.reverse()
+    return frozenset(cs)
+
+
 def mkmesh(seq, cells, salt=0):
     from permuta import MeshPatt, Perm
     seq = tuple(seq)
-    cells = frozenset(tuple(c) for c in cells)
+    cells = _shading(cells, (tuple(seq), salt))
     m = MeshPatt(Perm(seq), cells)
     k = _pick(("m", seq, tuple(sorted(cells)), salt), 9)
     if k == 0:
@@ -201,7 +214,7 @@ def mkmesh2(seq, cells, salt=0):
     from permuta import MeshPatt, Perm
     seq = tuple(seq)
     n = len(seq)
-    cells = frozenset(tuple(c) for c in cells)
+    cells = _shading(cells, (tuple(seq), salt))
     m = MeshPatt(Perm(seq), cells)
     k = _pick(("m2", seq, tuple(sorted(cells)), salt), N_MESH_ROUTES)
     if k == 0:
@@ -352,7 +365,7 @@ def mkmesh_u(seq, cells, salt=0, use=None):
     """`use`: as for mkperm_u (the calling module's own use of a mesh pattern)"""
     from permuta import MeshPatt, Perm
     seq = tuple(seq)
-    cells = frozenset(tuple(c) for c in cells)
+    cells = _shading(cells, (tuple(seq), salt))
     n = len(seq)
     k = _pick(("m2", seq, tuple(sorted(cells)), salt), 15)
     m = MeshPatt(Perm(seq), cells)
